@@ -64,12 +64,6 @@ Theorem C07_policy_isotope_wavelength :
 Proof. exact wavelength_lookup_isotope. Qed.
 Print Assumptions C07_policy_isotope_wavelength.
 
-(* record of a finding on the current source: thermal_cx_pec converts with the element's wavelength *)
-Theorem C07_code_thermal_cx_pec_refuted :
-  relevant thermal_cx_pec_witness = true /\ spec_ok thermal_cx_pec_witness (code_outcome thermal_cx_pec_witness) = false.
-Proof. exact code_thermal_cx_pec_refuted. Qed.
-Print Assumptions C07_code_thermal_cx_pec_refuted.
-
 (* ------------------------------------------------------------------------------------------ (R) *)
 Section R.
   Variable L : Type.
